@@ -63,12 +63,41 @@ def final_accounting(progs, obs, final, st):
     return z3.Implies(z3.Not(st.present[0]), usage == tot)
 
 
+def reset_race_region(progs, sched, st, obs, events):
+    """known finding C15-reset-races-inflight-accounting: the eviction sweep of a store (incr_mem_usage), finding the
+    store empty, overwrites the usage counter while another client's command is in progress (that client's removal / increment and
+    its matching decrement / insert straddle the reset)"""
+    for k, (t, op) in enumerate(sched):
+        if op != 'atomic.store':
+            continue
+        # the reset site of the sweep (incr_mem_usage): this thread's command began with the usage increment and it is not a delete
+        mine = [sched[i][1] for i in range(k) if sched[i][0] == t]
+        swept = 'atomic.fetch_add' in mine and 'map.remove_if' not in mine and mine[-1:] == ['map.len']
+        others = {u for u, _ in sched if u != t}
+        straddle = any(any(sched[i][0] == u for i in range(k)) and any(sched[i][0] == u for i in range(k + 1, len(sched))) for u in others)
+        if swept and straddle:
+            return {'reset-races-inflight-accounting': z3.BoolVal(True)}
+    return {}
+
+
+def never_undercounted(progs, obs, final, st):
+    # whatever the initial state and the known upward drift: the accounted usage never ends below the bytes actually stored
+    # (and has not wrapped below zero)
+    fv, fval, fflags, fcas, usage = final
+    tot = z3.If(fv, BV(24) + vlen(fval), BV(0))
+    return z3.And(z3.UGE(usage, tot), z3.ULT(usage, 1 << 62))
+
+
 POLICY_PROGRAMS = {
     'evicting set||set': dict(names=[['set'], ['set']]),
     'evicting set||get': dict(names=[['set'], ['get']], stale=True),
     'evicting set||flush': dict(names=[['set'], ['flush']]),
-    'evicting set||delete': dict(names=[['set'], ['delete']], extra=[('accounted usage equals the stored total afterwards (C15)', final_accounting)]),
-    'set||get (policy)': dict(names=[['set'], ['get']], extra=[('accounted usage equals the stored total afterwards (C15)', final_accounting)]),
+    'evicting set||delete': dict(names=[['set'], ['delete']], extra=[('accounted usage equals the stored total afterwards (C15)', final_accounting),
+                                                                           ('accounted usage is not below the stored total afterwards (C15)', never_undercounted)]),
+    'set||get (policy)': dict(names=[['set'], ['get']], stale=True, extra=[('accounted usage equals the stored total afterwards (C15)', final_accounting),
+                                                                           ('accounted usage is not below the stored total afterwards (C15)', never_undercounted)]),
+    'get||get (policy, expired item)': dict(names=[['get'], ['get']], stale=True, extra=[('accounted usage is not below the stored total afterwards (C15)', never_undercounted)]),
+    'get||delete (policy, expired item)': dict(names=[['get'], ['delete']], stale=True, extra=[('accounted usage is not below the stored total afterwards (C15)', never_undercounted)]),
     'evicting set||set||get': dict(names=[['set'], ['set'], ['get']]),
 }
 
@@ -95,7 +124,7 @@ def run_item(ck, it, tier):
             # accounted usage = stored total in the pre-state (what one insert per key reaches; replayable natively)
             return cas0(progs, st) + [z3.ULT(L, 1 << 40), st.usage == z3.If(st.present[0], BV(24) + vlen(st.val[0]), BV(0))]
         return explore_program(ck, P['names'], constraints=cons, allow_stale=P.get('stale', False), policy='random', memory_limit=L,
-                               check_lin=False, known_regions=False, budget_s=900, prefixes=prefixes, extra_obligations=P.get('extra'),
+                               check_lin=False, known_regions=False, regions_fn=reset_race_region, budget_s=900, prefixes=prefixes, extra_obligations=P.get('extra'),
                                frontier_depth=(12 if prefixes == 'frontier' else None))
 
 
